@@ -30,7 +30,7 @@ ASSUMPTIONS = [
     "chain targets are the quadrature cell masses of C01 (tolerance 1e-8 relative + 1e-12)",
 ]
 REQUIRED_COUNTERS = ["uniforms_at_the_lower_end_point", "laws_measured", "batch_elements_compared", "history_replays", "zero_probability_states_watched",
-                     "table_words_classes", "infinite_variation_copula_chains", "used_sampler_copies"]
+                     "table_words_classes", "infinite_variation_copula_chains", "used_sampler_copies", "second_model_on_the_same_grid"]
 MIN_NONTRIVIAL = {"quick": 80, "thorough": 600}
 SHARD_TIMEOUT = {"quick": 900, "thorough": 7200}
 TOP = 1e-12
@@ -69,6 +69,7 @@ VCLASSES = ["uniform", "random", "zeros", "ties", "dominant", "tiny", "dyadic", 
 
 def gen_cases(tier, seed):
     rng = np.random.default_rng(seed + 200)
+    rng2 = np.random.default_rng(seed + 20200)        # (own stream: the cases drawn from `rng` stay what they were)
     thorough = tier == "thorough"
     cases = []
     lengths = [1, 2, 3, 5, 8, 16, 17, 31, 64, 100, 255, 256, 257, 300]
@@ -98,6 +99,8 @@ def gen_cases(tier, seed):
             meths = list(C.METHODS_1D) if thorough else [C.METHODS_1D[(len(cases) + k) % 6] for k in (0, 2, 3)]
             cases.append({"kind": "chain", "model": m, "grid": g, "level": lev, "methods": meths, "seed": int(rng.integers(2**31)),
                           "refine_after": bool(i % 4 < 2)})
+            if ctor != "probstep" and i % 4 == 3:
+                cases[-1]["then"] = W.gen_model_spec(rng2, family=m["family"], branch=m.get("branch"), exp=m["exp"])
     # every method once more in a fixed "use, refine, rebuild" sequence
     for k, meth in enumerate(C.METHODS_1D):
         g = G.gen_grid_spec(rng, ["fixed", "uniform", "geometric"][k % 3], 1)
@@ -107,6 +110,10 @@ def gen_cases(tier, seed):
             g["h_div"] = 6.0
         cases.append({"kind": "chain", "model": fixed[(2 * k) % len(fixed)], "grid": g, "level": 0, "methods": [meth],
                       "seed": int(rng.integers(2**31)), "refine_after": True})
+        # ... and then a second model of the same family on the very same grid object, in the same process: its samplers realise
+        # ITS law (state shared between the samplers of different models, e.g. a cache keyed by the cell bounds only)
+        m0 = cases[-1]["model"]
+        cases[-1]["then"] = W.gen_model_spec(rng2, family=m0["family"], branch=m0.get("branch"), exp=m0["exp"])
     # one-sided measures (upward jumps only / downward jumps only): every state of the other side has probability zero
     for k in range(2 if not thorough else 8):
         m = W.gen_model_spec(rng, "HEM", exp=False)
@@ -356,6 +363,17 @@ def _run_chain(case, R):
         grid.refine()
         R.klass("sequence:refined-after-use")
         _chain_body(case, R, mspec, model, grid, g, lev + 1, rng, is_copula)
+        lev += 1
+    if case.get("then") and not is_copula:
+        mspec2 = case["then"]
+        try:
+            model2 = W.build_any_model(mspec2)
+        except (G.OutsideDomain, ValueError) as exc:
+            R.skip("outside-domain: " + type(exc).__name__)
+            return
+        R.klass("sequence:second-model-on-the-same-grid")
+        R.hit("second_model_on_the_same_grid")
+        _chain_body(case, R, mspec2, model2, grid, g, lev, rng, is_copula)
 
 
 def _chain_body(case, R, mspec, model, grid, g, lev, rng, is_copula):
